@@ -241,25 +241,38 @@ Section Whole.
       are literally unchanged once resolved *)
   Definition ext (R R' : registry) : Prop :=
     reg_ptr R = reg_ptr R' /\
-    forall p it rs, reg_get R p = Some it -> item_resolved it = Some rs ->
+    (forall p it rs, reg_get R p = Some it -> item_resolved it = Some rs ->
       exists it' rs', reg_get R' p = Some it' /\ item_resolved it' = Some rs' /\
         rs_size rs' = rs_size rs /\ rs_align rs' = rs_align rs /\
-        (reg_get R0 p <> None -> it' = it).
+        (reg_get R0 p <> None -> it' = it)) /\
+    (* the generated vftable struct of an input item that is already resolved is final *)
+    (forall owner vp ito it, reg_get R0 owner <> None -> vftable_path owner = Some vp ->
+       reg_get R owner = Some ito -> item_is_resolved ito = true ->
+       reg_get R vp = Some it -> reg_get R' vp = Some it).
 
   Lemma ext_refl R : ext R R.
-  Proof. split; [reflexivity|]. intros p it rs H Hr. exists it, rs. repeat split; auto. Qed.
+  Proof.
+    split; [reflexivity|]. split; [|auto]. intros p it rs H Hr. exists it, rs. repeat split; auto.
+  Qed.
 
   Lemma ext_trans R1 R2 R3 : ext R1 R2 -> ext R2 R3 -> ext R1 R3.
   Proof.
-    intros [Hp1 H1] [Hp2 H2]. split; [congruence|]. intros p it rs Hg Hr.
-    destruct (H1 _ _ _ Hg Hr) as (it2 & rs2 & Hg2 & Hr2 & Hs2 & Ha2 & He2).
-    destruct (H2 _ _ _ Hg2 Hr2) as (it3 & rs3 & Hg3 & Hr3 & Hs3 & Ha3 & He3).
-    exists it3, rs3. repeat split; try congruence. intros Hk. rewrite (He3 Hk). auto.
+    intros (Hp1 & H1 & G1) (Hp2 & H2 & G2). split; [congruence|]. split.
+    - intros p it rs Hg Hr.
+      destruct (H1 _ _ _ Hg Hr) as (it2 & rs2 & Hg2 & Hr2 & Hs2 & Ha2 & He2).
+      destruct (H2 _ _ _ Hg2 Hr2) as (it3 & rs3 & Hg3 & Hr3 & Hs3 & Ha3 & He3).
+      exists it3, rs3. repeat split; try congruence. intros Hk. rewrite (He3 Hk). auto.
+    - intros owner vp ito it Hu Hvp Hgo Hro Hgv.
+      assert (reg_get R2 owner = Some ito) as Hgo2.
+      { unfold item_is_resolved in Hro. destruct (it_state ito) as [d|r] eqn:Es; [discriminate|].
+        destruct (H1 owner ito r Hgo) as (it2 & rs2 & Hg2 & _ & _ & _ & He2); [unfold item_resolved; now rewrite Es|].
+        now rewrite (He2 Hu) in Hg2. }
+      eapply G2; eauto.
   Qed.
 
   Lemma size_of_ext R R' : ext R R' -> forall t s, size_of R t = Some s -> size_of R' t = Some s.
   Proof.
-    intros [Hp He]. induction t as [p|t IH|t IH|t IH n|c args ret]; intros s H; cbn [size_of] in *;
+    intros (Hp & He & _). induction t as [p|t IH|t IH|t IH n|c args ret]; intros s H; cbn [size_of] in *;
       try (rewrite <- Hp; exact H).
     - destruct (reg_get R p) as [it|] eqn:E; [|discriminate].
       unfold item_size in H. destruct (item_resolved it) as [rs|] eqn:Er; [|discriminate].
@@ -270,7 +283,7 @@ Section Whole.
 
   Lemma align_of_ext R R' : ext R R' -> forall t a, align_of R t = Some a -> align_of R' t = Some a.
   Proof.
-    intros [Hp He]. induction t as [p|t IH|t IH|t IH n|c args ret]; intros a H; cbn [align_of] in *;
+    intros (Hp & He & _). induction t as [p|t IH|t IH|t IH n|c args ret]; intros a H; cbn [align_of] in *;
       try (rewrite <- Hp; exact H); auto.
     destruct (reg_get R p) as [it|] eqn:E; [|discriminate].
     unfold item_align in H. destruct (item_resolved it) as [rs|] eqn:Er; [|discriminate].
@@ -336,7 +349,11 @@ Section Whole.
       + rewrite reg_get_add_same in Hq. inversion Hq; subst itq. rewrite Hnone.
         exists p, it0, gd, td, (List.length fs), rs. rewrite <- Hptr. repeat split; auto.
       + rewrite reg_get_add_other in Hq by exact Hq'. apply HI. exact Hq.
-    - split; [reflexivity|]. intros q itq rsq Hq Hr.
+    - split; [reflexivity|]. split.
+      2:{ intros owner vp ito ito' Hu Hvpo Hgo Hro Hgv. rewrite reg_get_add_other; [exact Hgv|].
+          intros E. rewrite E in Hvp. assert (owner = p) as -> by (eapply vftable_path_inj; eauto).
+          rewrite Hg in Hgo. inversion Hgo; subst ito. unfold item_is_resolved in Hro. rewrite Hs in Hro. discriminate. }
+      intros q itq rsq Hq Hr.
       destruct (path_eqb_spec (it_path vit) q) as [<-|Hq'].
       + rewrite reg_get_add_same. exists vit, rs. split; [reflexivity|]. split; [exact Hrs|].
         specialize (HI _ _ Hq). rewrite Hnone in HI.
@@ -396,14 +413,14 @@ Qed.
 
 (** ** marking an item resolved *)
 Lemma set_resolved_inv R0 st p it gd r :
-  Inv R0 (st_reg st) -> keyed (st_reg st) ->
+  collision_free R0 -> Inv R0 (st_reg st) -> keyed (st_reg st) ->
   reg_get (st_reg st) p = Some it -> it_state it = Unresolved gd ->
   let st' := set_resolved st p r in
   Inv R0 (st_reg st') /\ keyed (st_reg st') /\ ext R0 (st_reg st) (st_reg st') /\
   (exists it', reg_get (st_reg st') p = Some it' /\ it_state it' = Resolved r) /\
   (forall q, q <> p -> reg_get (st_reg st') q = reg_get (st_reg st) q).
 Proof.
-  intros HI HK Hg Hs. cbn zeta. unfold set_resolved. rewrite Hg. cbn [st_reg].
+  intros Hcf HI HK Hg Hs. cbn zeta. unfold set_resolved. rewrite Hg. cbn [st_reg].
   set (it' := {| it_vis := it_vis it; it_path := it_path it; it_state := Resolved r; it_cat := it_cat it |}).
   assert (it_path it' = p) as Hp by (cbn; auto).
   destruct (Inv_unresolved _ _ _ _ _ HI Hg Hs) as (it0 & Hg0 & Hs0).
@@ -413,7 +430,10 @@ Proof.
     + rewrite reg_get_add_same in Hq. inversion Hq; subst itq. rewrite Hp, Hg0. intros gd'. cbn. discriminate.
     + rewrite reg_get_add_other in Hq by exact Hne. now apply HI.
   - now apply keyed_add.
-  - split; [reflexivity|]. intros q itq rsq Hq Hr.
+  - split; [reflexivity|]. split.
+    2:{ intros owner vp ito ito' Hu Hvpo Hgo Hro Hgv. rewrite reg_get_add_other; [exact Hgv|].
+        rewrite Hp. intros E. subst vp. pose proof (Hcf owner p Hu Hvpo) as Hnone. congruence. }
+    intros q itq rsq Hq Hr.
     destruct (path_eqb_spec (it_path it') q) as [<-|Hne].
     + rewrite Hp in Hq. rewrite Hg in Hq. inversion Hq; subst itq. unfold item_resolved in Hr.
       rewrite Hs in Hr. discriminate.
@@ -447,16 +467,17 @@ Definition built (R0 : registry) (st_a st_b : sstate) (p : path) (r : resolved) 
   exists st_mid st_mid' it gd,
     ext R0 (st_reg st_a) (st_reg st_mid) /\ (Inv R0 (st_reg st_mid) /\ keyed (st_reg st_mid)) /\
     reg_get (st_reg st_mid) p = Some it /\ it_state it = Unresolved gd /\
-    attempt st_mid p gd = (st_mid', Ok r) /\ ext R0 (st_reg st_mid') (st_reg st_b).
+    attempt st_mid p gd = (st_mid', Ok r) /\ ext R0 (st_reg st_mid') (st_reg st_b) /\
+    ext R0 (st_reg (set_resolved st_mid' p r)) (st_reg st_b).
 
 Lemma built_weaken R0 st_a st_a' st_b st_b' p r :
   ext R0 (st_reg st_a') (st_reg st_a) -> ext R0 (st_reg st_b) (st_reg st_b') ->
   built R0 st_a st_b p r -> built R0 st_a' st_b' p r.
 Proof.
-  intros Ha Hb (m & m' & it & gd & H1 & H2 & H3 & H4 & H5 & H6).
+  intros Ha Hb (m & m' & it & gd & H1 & H2 & H3 & H4 & H5 & H6 & H7).
   exists m, m', it, gd.
   split; [eapply ext_trans; eauto|]. split; [exact H2|]. split; [exact H3|]. split; [exact H4|].
-  split; [exact H5 | eapply ext_trans; eauto].
+  split; [exact H5|]. split; eapply ext_trans; eauto.
 Qed.
 
 Definition resolved_at (st : sstate) (p : path) (r : resolved) : Prop :=
@@ -477,14 +498,14 @@ Proof.
     assert (reg_get (st_reg st1) p = Some it) as Hg1 by (rewrite Hback1; [exact Hg | congruence]).
     destruct o as [r| |m|m]; try discriminate.
     + (* resolved now *)
-      destruct (set_resolved_inv R0 st1 p it gd r HI1 HK1 Hg1 Hs) as (HI2 & HK2 & Hext2 & (it2 & Hg2 & Hs2) & Hoth).
+      destruct (set_resolved_inv R0 st1 p it gd r Hcf HI1 HK1 Hg1 Hs) as (HI2 & HK2 & Hext2 & (it2 & Hg2 & Hs2) & Hoth).
       destruct (IH _ _ HI2 HK2 H) as (HI' & HK' & Hext' & Hall).
       split; [exact HI'|]. split; [exact HK'|]. split; [eauto using ext_trans|].
       intros q r' Hq Hres. destruct (Hall _ _ Hq Hres) as [(itq & Hgq & Hsq)|Hb].
       * destruct (path_eqb_spec q p) as [->|Hne].
         -- right. rewrite Hg2 in Hgq. inversion Hgq; subst itq. rewrite Hs2 in Hsq. inversion Hsq; subst r'.
            exists st, st1, it, gd. split; [apply ext_refl|]. split; [split; [exact HI | exact HK]|]. split; [exact Hg|]. split; [exact Hs|].
-           split; [exact Hat | eapply ext_trans; eauto].
+           split; [exact Hat|]. split; [eapply ext_trans; eauto | exact Hext'].
         -- left. exists itq. split; [|exact Hsq]. rewrite Hoth in Hgq by exact Hne. rewrite Hback1 in Hgq by exact Hq. exact Hgq.
       * right. eapply built_weaken; [| apply ext_refl | exact Hb]. eauto using ext_trans.
     + (* deferred *)
@@ -541,21 +562,24 @@ Theorem sem_build_items order st0 st :
     reg_get (st_reg st) p = Some it -> it_state it = Resolved r ->
     exists st_mid st_mid',
       ext R0 R0 (st_reg st_mid) /\ attempt st_mid p gd = (st_mid', Ok r) /\
-      ext R0 (st_reg st_mid) (st_reg st_mid') /\ ext R0 (st_reg st_mid') (st_reg st).
+      ext R0 (st_reg st_mid) (st_reg st_mid') /\ ext R0 (st_reg st_mid') (st_reg st) /\
+      ext R0 (st_reg (set_resolved st_mid' p r)) (st_reg st) /\
+      exists itm, reg_get (st_reg st_mid) p = Some itm /\ it_state itm = Unresolved gd /\ it_path itm = p.
 Proof.
   intros Hcf HK H. cbn zeta. unfold sem_build in H.
   destruct (resolve_loop order _ st0) as [st1| | | |] eqn:El; try discriminate.
   rewrite (finish_build_reg _ _ H).
   destruct (resolve_loop_built _ order Hcf _ _ _ (Inv_init _) HK El) as (HI1 & Hext & Hall).
   split; [exact Hext|]. intros p it0 gd it r Hg0 Hs0 Hg Hs.
-  destruct (Hall p r) as [(it0' & Hg0' & Hs0')|(m & m' & itm & gdm & H1 & H2 & H3 & H4 & H5 & H6)].
+  destruct (Hall p r) as [(it0' & Hg0' & Hs0')|(m & m' & itm & gdm & H1 & H2 & H3 & H4 & H5 & H6 & H7)].
   - rewrite Hg0; discriminate.
   - exists it; auto.
   - rewrite Hg0 in Hg0'. inversion Hg0'; subst. congruence.
   - destruct H2 as [H2 H2k]. destruct (Inv_unresolved _ _ _ _ _ H2 H3 H4) as (it0' & Hg0' & Hs0').
     rewrite Hg0 in Hg0'. inversion Hg0'; subst it0'. rewrite Hs0 in Hs0'. inversion Hs0'; subst gdm.
     destruct (attempt_inv _ _ _ _ _ _ _ Hcf H2 H2k H3 H4 H5) as (_ & _ & Hmm & _).
-    exists m, m'. auto.
+    exists m, m'. split; [exact H1|]. split; [exact H5|]. split; [exact Hmm|]. split; [exact H6|]. split; [exact H7|].
+    exists itm. split; [exact H3|]. split; [exact H4 | apply H2k; exact H3].
 Qed.
 
 (** the states pyxis builds its registry in: [sem_new], then [add_module] for every module *)
@@ -587,7 +611,9 @@ Theorem pyxis_resolve_items order ptr mods st0 st :
     reg_get (st_reg st) p = Some it -> it_state it = Resolved r ->
     exists st_mid st_mid',
       ext R0 R0 (st_reg st_mid) /\ attempt st_mid p gd = (st_mid', Ok r) /\
-      ext R0 (st_reg st_mid) (st_reg st_mid') /\ ext R0 (st_reg st_mid') (st_reg st).
+      ext R0 (st_reg st_mid) (st_reg st_mid') /\ ext R0 (st_reg st_mid') (st_reg st) /\
+      ext R0 (st_reg (set_resolved st_mid' p r)) (st_reg st) /\
+      exists itm, reg_get (st_reg st_mid) p = Some itm /\ it_state itm = Unresolved gd /\ it_path itm = p.
 Proof.
   intros Hin Hcf H. destruct (pyxis_resolve_input _ _ _ _ H) as (st0' & Hin' & Hb).
   rewrite Hin in Hin'. inversion Hin'; subst st0'.
@@ -708,7 +734,7 @@ Theorem whole_build_layout order ptr mods st0 st p it0 gd td0 it r :
 Proof.
   intros Hin Hcf Hres Hg0 Hs0 Hty Hg Hs.
   destruct (pyxis_resolve_items _ _ _ _ _ Hin Hcf Hres) as (_ & Hall).
-  destruct (Hall _ _ _ _ _ Hg0 Hs0 Hg Hs) as (m & m' & _ & Hat & _ & Hext).
+  destruct (Hall _ _ _ _ _ Hg0 Hs0 Hg Hs) as (m & m' & _ & Hat & _ & Hext & _).
   unfold attempt in Hat. rewrite Hty in Hat.
   destruct (type_build_layout _ _ _ _ _ _ Hat) as (td & Hi & Hnames & Hsz & Hnp & Hp).
   destruct (type_build_inv _ _ _ _ _ _ Hat) as
@@ -747,7 +773,7 @@ Theorem whole_build_offsets order ptr mods st0 st p it0 gd td0 it r :
 Proof.
   intros Hin Hcf Hres Hg0 Hs0 Hty Hg Hs.
   destruct (pyxis_resolve_items _ _ _ _ _ Hin Hcf Hres) as (_ & Hall).
-  destruct (Hall _ _ _ _ _ Hg0 Hs0 Hg Hs) as (m & m' & Hext0 & Hat & Hmm' & Hext).
+  destruct (Hall _ _ _ _ _ Hg0 Hs0 Hg Hs) as (m & m' & Hext0 & Hat & Hmm' & Hext & _).
   unfold attempt in Hat. rewrite Hty in Hat.
   assert (reg_u8 (st_reg m')) as Hu8.
   { eapply reg_u8_ext; [exact Hmm'|]. eapply reg_u8_ext; [exact Hext0|]. eapply input_state_u8; eauto. }
@@ -811,7 +837,7 @@ Theorem whole_build_enum order ptr mods st0 st p it0 gd ed0 it r :
 Proof.
   intros Hin Hcf Hres Hg0 Hs0 Hty Hg Hs.
   destruct (pyxis_resolve_items _ _ _ _ _ Hin Hcf Hres) as (_ & Hall).
-  destruct (Hall _ _ _ _ _ Hg0 Hs0 Hg Hs) as (m & m' & Hext0 & Hat & Hmm' & Hext).
+  destruct (Hall _ _ _ _ _ Hg0 Hs0 Hg Hs) as (m & m' & Hext0 & Hat & Hmm' & Hext & _).
   unfold attempt in Hat. rewrite Hty in Hat. inversion Hat; subst m'.
   exists m. auto.
 Qed.
@@ -828,6 +854,105 @@ Theorem whole_build_type order ptr mods st0 st p it0 gd td0 it r :
 Proof.
   intros Hin Hcf Hres Hg0 Hs0 Hty Hg Hs.
   destruct (pyxis_resolve_items _ _ _ _ _ Hin Hcf Hres) as (_ & Hall).
-  destruct (Hall _ _ _ _ _ Hg0 Hs0 Hg Hs) as (m & m' & Hext0 & Hat & Hmm' & Hext).
+  destruct (Hall _ _ _ _ _ Hg0 Hs0 Hg Hs) as (m & m' & Hext0 & Hat & Hmm' & Hext & _).
   unfold attempt in Hat. rewrite Hty in Hat. exists m, m'. auto.
+Qed.
+
+(** ** the generated vftable struct of every type of an accepted build *)
+Lemma process_statements_vfs_first R scope s rest gfs n pending vfs :
+  gs_field s = GVftable gfs ->
+  foldM (process_statement R scope) (s :: rest) (O, ([], None)) = Ok (n, (pending, vfs)) ->
+  exists sz fs, vfs = Some fs /\ foldM scan_vftable_size_attr (gs_attrs s) None = Ok sz /\
+                convert_functions R scope sz gfs = Ok fs.
+Proof.
+  intros Hf H. cbn [foldM] in H. inv_bind H. destruct a as [idx1 [pending1 vfs1]].
+  unfold process_statement in Ha. rewrite Hf in Ha. cbn [Nat.eqb negb] in Ha. inv_bind Ha. inv_bind Ha.
+  inversion Ha; subst. apply process_rest_keeps_vfs in H; [|discriminate]. subst vfs. eauto.
+Qed.
+
+Lemma vftable_path_total p parent : path_parent p = Some parent -> exists vp, vftable_path p = Some vp.
+Proof.
+  unfold vftable_path, path_parent, path_last. destruct p; [discriminate|]. eauto.
+Qed.
+
+Lemma vftable_build_some st owner v fb fs st1 vt vr vp :
+  vftable_build st owner v fb (Some fs) = Ok (st1, vt, vr) -> vftable_path owner = Some vp ->
+  exists vit bf, vftable_item (st_reg st) owner v fs = Some vit /\ it_path vit = vp /\
+                 add_item st vit = Ok st1 /\
+                 vt = Some {| vt_functions := fs; vt_base_field := bf; vt_type := TConstPtr (TRaw vp) |}.
+Proof.
+  unfold vftable_build. intros H Hvp.
+  destruct (vftable_item (st_reg st) owner v fs) as [vit|] eqn:Evi.
+  2:{ unfold vftable_item in Evi. rewrite Hvp in Evi. discriminate. }
+  destruct (vftable_item_facts _ _ _ _ _ Evi) as (Hvp' & _). rewrite Hvp in Hvp'. inversion Hvp' as [Hvpe].
+  inv_bind H. rename a into st_add. inv_bind H. exists vit.
+  destruct a as [[bn bv]|].
+  - destruct (_ <? _)%nat; [discriminate|]. destruct (negb _); [discriminate|]. inversion H; subst.
+    exists (Some bn). repeat split; auto.
+  - inversion H; subst. exists None. repeat split; auto.
+Qed.
+
+Lemma resolve_regions_vfb st owner v ts pending vfs st' regions vt size :
+  resolve_regions st owner v ts pending vfs = Ok (st', regions, vt, size) ->
+  exists vr, vftable_build st owner v (find r_is_base (map snd pending)) vfs = Ok (st', vt, vr).
+Proof.
+  unfold resolve_regions. intros H. destruct (first_base_unresolved _ _); [discriminate|].
+  inv_bind H. destruct a as [[st1 vt1] vr1]. inv_bind H. inv_bind H. inv_bind H. inv_bind H.
+  destruct a2 as [named sz]. cbn [fst snd] in *.
+  assert (st' = st1 /\ vt = vt1) as [-> ->].
+  { destruct ts as [t|]; [destruct (negb (sz =? t)%N); [discriminate|]|]; inversion H; auto. }
+  eauto.
+Qed.
+
+Theorem whole_build_vftable order ptr mods st0 st p it0 gd td0 it r s rest gfs :
+  input_state ptr mods = Ok st0 -> collision_free (st_reg st0) ->
+  pyxis_resolve order ptr mods = BOk st ->
+  reg_get (st_reg st0) p = Some it0 -> it_state it0 = Unresolved gd -> gi_inner gd = GIType td0 ->
+  reg_get (st_reg st) p = Some it -> it_state it = Resolved r ->
+  gt_stmts td0 = s :: rest -> gs_field s = GVftable gfs ->
+  exists R_mid scope sz fs vp vit td vt,
+    ext (st_reg st0) (st_reg st0) R_mid /\ ext (st_reg st0) R_mid (st_reg st) /\
+    foldM scan_vftable_size_attr (gs_attrs s) None = Ok sz /\
+    convert_functions R_mid scope sz gfs = Ok fs /\
+    vftable_path p = Some vp /\
+    vftable_item (st_reg st) p (gi_vis gd) fs = Some vit /\
+    reg_get (st_reg st) vp = Some vit /\
+    rs_inner r = IType td /\ td_vftable td = Some vt /\
+    vt_functions vt = fs /\ vt_type vt = TConstPtr (TRaw vp).
+Proof.
+  intros Hin Hcf Hres Hg0 Hs0 Hty Hg Hs Hst Hf.
+  destruct (pyxis_resolve_items _ _ _ _ _ Hin Hcf Hres) as (_ & Hall).
+  destruct (Hall _ _ _ _ _ Hg0 Hs0 Hg Hs) as (m & m' & Hext0 & Hat & Hmm' & Hext & Hext2 & itm & Hgm & Hsm & Hkm).
+  unfold attempt in Hat. rewrite Hty in Hat.
+  destruct (type_build_inv _ _ _ _ _ _ Hat) as
+      (parent & module & doc & ta & n & pending & vfs & regions & vt & size & funcs & A &
+       Hpar & Hmod & Hta & Hstm & Hrr & Hca & Hr).
+  rewrite Hst in Hstm. destruct (process_statements_vfs_first _ _ _ _ _ _ _ _ Hf Hstm) as (sz & fs & -> & Hsz & Hconv).
+  destruct (vftable_path_total _ _ Hpar) as (vp & Hvp).
+  destruct (resolve_regions_vfb _ _ _ _ _ _ _ _ _ _ Hrr) as (vr & Hvb).
+  destruct (vftable_build_some _ _ _ _ _ _ _ _ _ Hvb Hvp) as (vit & bf & Evi & Hvpe & Hadd & Hvt).
+  assert (reg_get (st_reg m') vp = Some vit) as Hgv.
+  { rewrite (add_item_reg _ _ _ Hadd), <- Hvpe. apply reg_get_add_same. }
+  assert (reg_get (st_reg st0) p <> None) as Hup by congruence.
+  assert (vp <> p) as Hne.
+  { intros E. rewrite E in Hvp. pose proof (Hcf p p Hup Hvp). congruence. }
+  (* after the owner is marked resolved, its vftable struct is final *)
+  destruct Hext2 as (Hptr2 & Hres2 & Hgen).
+  destruct Hext as (Hptr1 & Hres1 & Hgen1).
+  assert (reg_get (st_reg m') p = Some itm) as Hgp.
+  { rewrite (add_item_reg _ _ _ Hadd). rewrite reg_get_add_other; [exact Hgm | congruence]. }
+  set (itp' := {| it_vis := it_vis itm; it_path := it_path itm; it_state := Resolved r; it_cat := it_cat itm |}).
+  assert (st_reg (set_resolved m' p r) = reg_add (st_reg m') itp') as Hsr.
+  { unfold set_resolved. now rewrite Hgp. }
+  assert (reg_get (st_reg (set_resolved m' p r)) p = Some itp') as Hgp'.
+  { rewrite Hsr. assert (it_path itp' = p) as Hk' by exact Hkm. rewrite <- Hk' at 1. apply reg_get_add_same. }
+  assert (reg_get (st_reg (set_resolved m' p r)) vp = Some vit) as Hgv'.
+  { rewrite Hsr. rewrite reg_get_add_other; [exact Hgv | cbn [itp' it_path]; congruence]. }
+  pose proof (Hgen p vp _ _ Hup Hvp Hgp' eq_refl Hgv') as Hfinal.
+  exists (st_reg m), (module_scope module), sz, fs, vp, vit.
+  eexists. eexists. subst r. cbn [rs_inner td_vftable].
+  split; [exact Hext0|]. split; [eapply ext_trans; [exact Hmm' | split; [exact Hptr1 | split; [exact Hres1 | exact Hgen1]]]|].
+  split; [exact Hsz|]. split; [exact Hconv|]. split; [exact Hvp|].
+  split; [unfold vftable_item in *; rewrite <- Hptr1; destruct Hmm' as (Hpm & _); rewrite <- Hpm; exact Evi|].
+  split; [exact Hfinal|]. split; [reflexivity|]. split; [exact Hvt|]. split; reflexivity.
 Qed.
